@@ -83,7 +83,45 @@ def call_stmt(ex, e, st):
             return
     if isinstance(f, ast.Name) and f.id == "print":
         return
+    if isinstance(f, ast.Name) and f.id == "cut":
+        return cut(ex, e, st)
+    if isinstance(f, ast.Name) and f.id in ("stash", "unstash"):
+        return stash(ex, e, st, f.id)
     call(ex, e, st)
+
+
+def cut(ex, e, st):
+    """ghost cut point: cut(F1, F2, ..) proves each fact in the current state and continues from a state that assumes ONLY the
+    precondition and those facts (a weakening of the path condition: sound, and it keeps later queries small)."""
+    facts = []
+    k = ex.ordinal("cut")
+    for n_, a in enumerate(e.args):
+        ex.quiet += 1
+        try:
+            g = tobool(ex.ev(a, st.clone()))
+        finally:
+            ex.quiet -= 1
+        ex.prove(st, f"cut{k}:fact{n_ + 1}", g, e.lineno)
+        facts.append(g)
+    st.pc = list(ex.entry_pc) + facts
+
+
+def stash(ex, e, st, what):
+    """ghost: stash("name", F) proves F now and sets it aside (a formula over immutable terms stays true on this path);
+    unstash("name") assumes it again later.  Used to keep facts that cause matching loops out of queries that do not need them."""
+    name = e.args[0].value
+    if what == "stash":
+        ex.quiet += 1
+        try:
+            g = tobool(ex.ev(e.args[1], st.clone()))
+        finally:
+            ex.quiet -= 1
+        ex.prove(st, f"stash:{name}", g, e.lineno)
+        st.stash[name] = g
+    else:
+        if name not in st.stash:
+            raise U(f"unstash of unknown fact {name}")
+        st.assume(st.stash[name])
 
 
 def elem_raw(base, v):
